@@ -1372,7 +1372,10 @@ impl World {
 				.mgr(n)
 				.map(|m| !m.list_channels().iter().any(|d| d.channel_id == chan))
 				.unwrap_or(false);
-			if let (true, Some(c)) = (gone, self.chan_by_id(&chan)) {
+			// (likewise when the *peer* has closed it and says so with a channel_reestablish that
+			// makes this node close: the verdict follows the peer's reason)
+			let peer_gone = data.contains("invalid channel_reestablish to force close in a non-standard way");
+			if let (true, Some(c)) = (gone || peer_gone, self.chan_by_id(&chan)) {
 				self.oracle.suspect_errors.push((n, c, msg));
 				self.out.bump("probe:error_verdict_deferred_to_channel_closed_event");
 				return;
@@ -1896,6 +1899,17 @@ impl World {
 			},
 			None => false,
 		};
+		if self.strict_offchain
+			&& !requested
+			&& reason.contains("invalid channel_reestablish to force close in a non-standard way")
+		{
+			// the peer closed the channel first (its ChannelClosed event may not have been handled
+			// yet): judged at the end by the peer's reason
+			if let Some(c) = ci {
+				self.oracle.suspect_closes.push((n, c, format!("node {} reports channel {} closed: {}", n, channel_id, reason)));
+				return;
+			}
+		}
 		if self.strict_offchain && !requested {
 			self.violate(
 				"C01",
